@@ -199,7 +199,7 @@ def buf_cfgs(rng, tier):
                 out.append(dict(source="aligned", n=n, pre=pre, ta=[s, a], owned=(k % 4 == 0)))
         if n > 0:
             k += 1
-            out.append(dict(source="recycled", n=n, pre=3, m=n + 16, owned=(k % 2 == 0)))
+            out.append(dict(source="recycled", n=n, pre=3, m=max(n + 16, 40), owned=(k % 2 == 0)))
             out.append(dict(source="recycled", n=n, pre=6, m=n + 40, ta=[8, 8], owned=(k % 2 == 1)))
             out.append(dict(source="recycled", n=n, pre=1, m=n + 48, ta=[16, 16], owned=False))
     for i, c in enumerate(out):
